@@ -41,8 +41,9 @@ def entry(draw):
     sym = draw(st.sampled_from(FRESH))
     form = draw(st.sampled_from(["dict", "dict", "quantity", "dict_type", "dict_type", "dict_builtin", "dict_type2"]))
     if form == "quantity":
-        return {"sym": sym, "form": form, "mag": draw(st.sampled_from([1.0, 2.0, 0.5, 60.0])), "unit": draw(st.sampled_from(QUNITS))}
-    return {"sym": sym, "form": form, "mag": draw(st.sampled_from([1.0, 3.0, 0.25, 1e3])), "dims": draw(st.sampled_from(DIMS)),
+        # ("nan": a magnitude that does not compare equal to itself - the unit still has to go when its scope ends)
+        return {"sym": sym, "form": form, "mag": draw(st.sampled_from([1.0, 2.0, 0.5, 60.0, 2.0, "nan"])), "unit": draw(st.sampled_from(QUNITS))}
+    return {"sym": sym, "form": form, "mag": draw(st.sampled_from([1.0, 3.0, 0.25, 1e3, 3.0, "nan"])), "dims": draw(st.sampled_from(DIMS)),
             "prefixes": draw(st.sampled_from(PREFS)), "named": draw(st.booleans())}
 
 
@@ -216,14 +217,14 @@ def _build(ents, typ):
     d = {}
     for e in ents:
         if e["form"] == "quantity":
-            d[e["sym"]] = Quantity(e["mag"], e["unit"])
+            d[e["sym"]] = Quantity(float(e["mag"]), e["unit"])
         elif e["form"] == "dict_nomag":
             x = {"dimensions": list(e["dims"]), "prefixes": e["prefixes"]}
             if e.get("with_type"):
                 x["definition"] = typ
             d[e["sym"]] = x
         else:
-            x = {"magnitude": e["mag"], "dimensions": list(e["dims"]), "prefixes": copy.copy(e["prefixes"])}
+            x = {"magnitude": float(e["mag"]), "dimensions": list(e["dims"]), "prefixes": copy.copy(e["prefixes"])}
             if e["named"]:
                 x["name"] = "unit " + e["sym"]
             if e["form"] == "dict_type":
@@ -323,6 +324,9 @@ def _check(case, v):
                     q = Quantity(1, e["sym"])
                 except Exception as ex:
                     return v.fail("inside-unusable", f"step {step} ({what}): Quantity(1,{e['sym']!r}) raised {ex!r} inside its scope")
+                if e["mag"] == "nan":
+                    v.label("unit_with_nan_magnitude")
+                    continue
                 if e["form"] == "quantity":
                     want = e["mag"] * R.factor_of_expression_text(e["unit"])
                 else:
